@@ -30,7 +30,7 @@ open Wntr.Units
 
 /-! ### A.1 the specification is matched by the code -/
 
-def FieldsPaired : Prop := (Gen.fields.filter fun f => !f.ok Gen.rows) = []
+def FieldsPaired : Prop := (Gen.fields.filter fun f => !f.ok Gen.table) = []
 
 /-- **`inp_fields_paired`** — when a writer or reader stops carrying an attribute, changes the direction of a conversion
 or its optional arguments, this fails and the offending fields are the value of the left-hand side -/
@@ -39,21 +39,63 @@ theorem inp_fields_paired : FieldsPaired := by
   decide +kernel
 
 /-- **`inp_conversions_claimed`** — every conversion call of the section writers/readers belongs to a specified field -/
-theorem inp_conversions_claimed : unclaimed Gen.fields Gen.rows = [] := by decide +kernel
+theorem inp_conversions_claimed :
+    ((unclaimed Gen.fields Gen.rows).filter fun x => !(Gen.readerOnly.any fun a => x.has false a)) = [] := by
+  decide +kernel
 
 /-! ### A.2 conversion classes -/
 
 def sub (c : Conv) : List Entry := Units.Gen.table.filter fun e => e.hyd == c.hyd && e.param == c.param
 
-def sameSlot (a b : Entry) : Bool := a.unit == b.unit && a.mass == b.mass && a.order == b.order && a.dw == b.dw
+abbrev Slot := Nat × Nat × Nat × Bool
+def slotOf (e : Entry) : Slot := (e.unit, e.mass, e.order, e.dw)
+def sameSlot (a b : Entry) : Bool := slotOf a == slotOf b
 
-/-- the parameter used on the reading side converts exactly like the one used on the writing side, in every unit system -/
+/-- per unit context (flow unit, mass unit, reaction order, Darcy flag) the two conversion factors of a parameter -/
+def slotTab (c : Conv) : List (Slot × (Rat × Rat)) :=
+  (sub c).map fun e => (slotOf e, (factor e.toSteps, factor e.fromSteps))
+
+def uniqKeys {κ ν : Type} [BEq κ] : List (κ × ν) → Bool
+  | [] => true
+  | kv :: t => !(t.any fun x => x.1 == kv.1) && uniqKeys t
+
+theorem uniqKeys_inj {κ ν : Type} [BEq κ] [LawfulBEq κ] (l : List (κ × ν)) (h : uniqKeys l = true) (k : κ) (v v' : ν)
+    (h1 : (k, v) ∈ l) (h2 : (k, v') ∈ l) : v = v' := by
+  induction l with
+  | nil => cases h1
+  | cons a t ih =>
+    simp only [uniqKeys, Bool.and_eq_true, Bool.not_eq_true', List.any_eq_false] at h
+    rcases List.mem_cons.mp h1 with e1 | e1 <;> rcases List.mem_cons.mp h2 with e2 | e2
+    · rw [← e1] at e2; exact (Prod.mk.inj e2).2.symm
+    · exact absurd (by simp [← e1] : ((k, v').1 == a.1) = true) (by simpa using h.1 _ e2)
+    · exact absurd (by simp [← e2] : ((k, v).1 == a.1) = true) (by simpa using h.1 _ e1)
+    · exact ih h.2 e1 e2
+
+/-- the parameter used on the reading side converts exactly like the one used on the writing side, in every unit system:
+the same unit contexts with the same factors, each context once -/
 def pairOk (p : Conv × Conv) : Bool :=
-  !(sub p.1).isEmpty && !(sub p.2).isEmpty &&
-  (sub p.1).all fun ew => (sub p.2).all fun er =>
-    !sameSlot ew er || (factor er.toSteps == factor ew.toSteps && factor er.fromSteps == factor ew.fromSteps)
+  !(sub p.1).isEmpty && decide (slotTab p.1 = slotTab p.2) && uniqKeys (slotTab p.1)
 
-theorem conv_pairs_ok : (convPairs Gen.fields Gen.rows).all pairOk = true := by decide +kernel
+theorem conv_pairs_ok : (convPairs Gen.fields Gen.table).all pairOk = true := by decide +kernel
+
+theorem factors_of_pairOk (p : Conv × Conv) (hp : pairOk p = true) (ew er : Entry) (hew : ew ∈ sub p.1) (her : er ∈ sub p.2)
+    (hs : sameSlot ew er = true) :
+    factor er.toSteps = factor ew.toSteps ∧ factor er.fromSteps = factor ew.fromSteps := by
+  simp only [pairOk, Bool.and_eq_true, decide_eq_true_eq] at hp
+  have h1 : (slotOf ew, (factor ew.toSteps, factor ew.fromSteps)) ∈ slotTab p.1 := List.mem_map.mpr ⟨ew, hew, rfl⟩
+  have h2 : (slotOf er, (factor er.toSteps, factor er.fromSteps)) ∈ slotTab p.2 := List.mem_map.mpr ⟨er, her, rfl⟩
+  rw [← hp.1.2] at h2
+  have hk : slotOf ew = slotOf er := by simpa [sameSlot] using hs
+  rw [← hk] at h2
+  have := uniqKeys_inj _ hp.2 _ _ _ h1 h2
+  exact ⟨(Prod.mk.inj this).1.symm, (Prod.mk.inj this).2.symm⟩
+
+theorem mem_all_of_mem_sec (t : Table) (id : Nat) (a : Row) (h : a ∈ t.sec id) : a ∈ t.all := by
+  unfold Table.sec at h
+  split at h
+  · rename_i p hp
+    exact List.mem_flatMap.mpr ⟨p, List.mem_of_find?_eq_some hp, h⟩
+  · cases h
 
 /-- what the file carries / what the reader stores -/
 def send (c : Conv) (e : Entry) (x : Rat) : Rat := if c.toSI then e.toSI x else e.fromSI x
@@ -78,12 +120,12 @@ theorem roundtrip_of_factors (ew er : Entry) (hw : ew ∈ Units.Gen.table)
 that belongs to it, every flow unit × mass unit × reaction order × Darcy flag (the table entries `ew`, `er` of the two
 parameters for the same unit context) and EVERY value `x`: what the reader stores is `x` up to the rounding of the
 conversion constants (1e-14 relative). -/
-theorem inp_field_roundtrip (f : Field) (hf : f ∈ Gen.fields) (a b : Row) (ha : a ∈ f.wRows Gen.rows) (hb : b ∈ f.rRows Gen.rows)
+theorem inp_field_roundtrip (f : Field) (hf : f ∈ Gen.fields) (a b : Row) (ha : a ∈ f.wRows Gen.table) (hb : b ∈ f.rRows Gen.table)
     (cw cr : Conv) (hcw : a.conv = some cw) (hcr : b.conv = some cr)
     (ew er : Entry) (hew : ew ∈ sub cw) (her : er ∈ sub cr) (hslot : sameSlot ew er = true) (x : Rat) :
     cw.toSI ≠ cr.toSI ∧ |send cr er (send cw ew x) - x| ≤ epsInv * |x| := by
   -- the pair (cw, cr) is one of the decided pairs
-  have hmem : (cw, cr) ∈ convPairs Gen.fields Gen.rows := by
+  have hmem : (cw, cr) ∈ convPairs Gen.fields Gen.table := by
     unfold convPairs
     rw [List.mem_eraseDups]
     rw [List.mem_flatMap]
@@ -93,12 +135,11 @@ theorem inp_field_roundtrip (f : Field) (hf : f ∈ Gen.fields) (a b : Row) (ha 
     rw [List.mem_filterMap]
     exact ⟨b, hb, by simp [hcw, hcr]⟩
   have hp := List.all_eq_true.mp conv_pairs_ok _ hmem
-  simp only [pairOk, Bool.and_eq_true, List.all_eq_true, Bool.or_eq_true, Bool.not_eq_true', beq_iff_eq] at hp
-  have hfac := (hp.2 ew hew er her).resolve_left (by simp [hslot])
+  have hfac := factors_of_pairOk (cw, cr) hp ew er hew her hslot
   -- the shape: opposite directions
-  have hok : f.ok Gen.rows = true := by
+  have hok : f.ok Gen.table = true := by
     by_contra hbad
-    have : f ∈ Gen.fields.filter fun f => !f.ok Gen.rows := List.mem_filter.mpr ⟨hf, by simpa using hbad⟩
+    have : f ∈ Gen.fields.filter fun f => !f.ok Gen.table := List.mem_filter.mpr ⟨hf, by simpa using hbad⟩
     rw [inp_fields_paired] at this
     cases this
   have hshape : cw.shapeOk cr = true := by
@@ -108,13 +149,13 @@ theorem inp_field_roundtrip (f : Field) (hf : f ∈ Gen.fields) (a b : Row) (ha 
       | false => rfl
       | true => exact absurd hcw (by
           -- a literal has no conversion: rows with `const` never carry one (decided below)
-          have := const_rows_plain a (List.mem_filter.mp ha).1 hc
+          have := const_rows_plain a (mem_all_of_mem_sec _ _ _ (List.mem_filter.mp ha).1) hc
           simp [this])
     have hbc : b.const = false := by
       cases hc : b.const with
       | false => rfl
       | true => exact absurd hcr (by
-          have := const_rows_plain b (List.mem_filter.mp hb).1 hc
+          have := const_rows_plain b (mem_all_of_mem_sec _ _ _ (List.mem_filter.mp hb).1) hc
           simp [this])
     have := hok.2 a (List.mem_filter.mpr ⟨ha, by simp [hac]⟩) b (List.mem_filter.mpr ⟨hb, by simp [hbc]⟩)
     simpa [rowsCompat, hcw, hcr] using this
@@ -133,16 +174,16 @@ theorem inp_field_roundtrip (f : Field) (hf : f ∈ Gen.fields) (a b : Row) (ha 
     simp only [send, hcwd, this, if_true, Bool.false_eq_true, if_false]
     exact hrt.2
 where
-  const_rows_plain (r : Row) (hr : r ∈ Gen.rows) (hc : r.const = true) : r.conv = none := by
-    have h : (Gen.rows.all fun r => !r.const || r.conv.isNone) = true := by decide +kernel
+  const_rows_plain (r : Row) (hr : r ∈ Gen.table.all) (hc : r.const = true) : r.conv = none := by
+    have h : (Gen.table.all.all fun r => !r.const || r.conv.isNone) = true := by decide +kernel
     have := List.all_eq_true.mp h r hr
     simp only [hc, Bool.not_true, Bool.false_or, Option.isNone_iff_eq_none] at this
     exact this
 
 /-- non-vacuity: the tank level fields really pair two DIFFERENT parameters (written as HydraulicHead, read as Length),
 and the energy prices run in the opposite direction (written with `to_si`, read with `from_si`) -/
-example : (convPairs Gen.fields Gen.rows).any (fun p => p.1.param != p.2.param) = true ∧
-    (convPairs Gen.fields Gen.rows).any (fun p => p.1.toSI) = true := by
+example : (convPairs Gen.fields Gen.table).any (fun p => p.1.param != p.2.param) = true ∧
+    (convPairs Gen.fields Gen.table).any (fun p => p.1.toSI) = true := by
   constructor <;> decide +kernel
 
 /-- a reader that used `HydParam.Length` where the writer uses `PipeDiameter` would be rejected: ft vs inch -/
@@ -157,9 +198,12 @@ def emittedKeys : List (String × List String) :=
   (Wntr.Schema.Gen.tables.map fun t => (t.cls, t.emitted)) ++ Gen.optionKeys
 
 /-- attributes that `to_dict` emits, that the statement does not put outside, and that no specified field carries -/
-def missingAttrs : List (String × String) :=
-  emittedKeys.flatMap fun ck => (ck.2.filter fun k =>
-    !Gen.outside.contains (ck.1, k) && !(Gen.fields.any fun f => f.cls == ck.1 && f.key == k)).map fun k => (ck.1, k)
+def missingFor (cls : String) (keys : List String) : List (String × String) :=
+  let carried := (Gen.fields.filter fun f => f.cls == cls).map (·.key)
+  let out := (Gen.outside.filter fun ck => ck.1 == cls).map (·.2)
+  (keys.filter fun k => !out.contains k && !carried.contains k).map fun k => (cls, k)
+
+def missingAttrs : List (String × String) := emittedKeys.flatMap fun ck => missingFor ck.1 ck.2
 
 /-- **`inp_attribute_coverage`** (with `inp_fields_paired`: each of those fields is written by its section and read back
 into the same attribute by the current code) -/
@@ -172,20 +216,14 @@ theorem outside_are_attributes : (Gen.outside.all fun ck => emittedKeys.any fun 
 /-! ### A.4 option keywords per version -/
 
 /-- the keywords EPANET 2.2 added to [OPTIONS] (EPANET 2.2 users manual, appendix C) that WNTR writes -/
-def v22Keywords : List String :=
-  ["OPTIONS:HEADERROR", "OPTIONS:FLOWCHANGE", "OPTIONS:DEMAND MODEL", "OPTIONS:MINIMUM PRESSURE", "OPTIONS:PRESSURE EXPONENT",
-   "OPTIONS:REQUIRED PRESSURE"]
+def v22Keywords : List (String × List String) :=
+  [("OPTIONS", ["HEADERROR"]), ("OPTIONS", ["FLOWCHANGE"]), ("OPTIONS", ["DEMAND", "MODEL"]), ("OPTIONS", ["MINIMUM", "PRESSURE"]),
+   ("OPTIONS", ["PRESSURE", "EXPONENT"]), ("OPTIONS", ["REQUIRED", "PRESSURE"])]
 
-/-- a written keyword `SEC:W1 W2` is recognised when the reader dispatches on its first word (or on any word for a
-section whose reader stores unknown keywords generically) -/
-def recognised (kw : String) : Bool :=
-  match kw.splitOn ":" with
-  | [sec, words] =>
-    let w1 := (words.splitOn " ").headD ""
-    let w2 := ((words.splitOn " ").drop 1).headD ""
-    Gen.kwRead.contains (sec ++ ":" ++ w1) || (Gen.kwRead.contains (sec ++ ":" ++ w2) && w2 != "") ||
-      (Gen.kwRead.contains (sec ++ ":*") && sec == "TIMES")
-  | _ => false
+/-- a written keyword is recognised when the reader dispatches on one of its words (the [TIMES] reader stores every
+two-word keyword it does not know generically) -/
+def recognised (kw : String × List String) : Bool :=
+  kw.2.any (fun w => Gen.kwRead.contains (kw.1, [w])) || (kw.1 == "TIMES" && Gen.kwRead.contains ("TIMES", ["*"]))
 
 /-- **`option_keywords_roundtrip`** — per version: every keyword written is read; 2.0 writes the 2.2 list minus exactly the
 2.2-specific keywords -/
